@@ -150,8 +150,12 @@ def build(kind, cfg):
     raise KeyError(kind)
 
 
+LAST_RAW = {}
+
+
 def query(kind, obj, op, c, V):
-    """Perform one query; return a dict token->float (function over the vocabulary) or a float."""
+    """Perform one query; return a dict token->float (function over the vocabulary) or a float.
+    The raw object returned by a next-token query is remembered in LAST_RAW (see run_case)."""
     c = tuple(c)
     is_lm = kind.endswith("LM") or kind.startswith("BoolCFGLM")
     if op == "next":
@@ -161,6 +165,7 @@ def query(kind, obj, op, c, V):
             p = obj.p_next(c)
         else:
             p = obj.p_next(c)
+        LAST_RAW["obj"] = p
         return {t: float(p[t]) for t in V}
     if op == "weight":
         if is_lm:
@@ -274,9 +279,11 @@ def run_case(case, ctx):
             fresh_cache[key] = query(kind, obj2, op, c, V)
         return fresh_cache[key]
 
+    kept = []  # (step, raw result object, its value when it was returned): earlier results must stay valid
     for step, op in enumerate(ops):
         before = [snap(c) for _, c in watched]
         c2 = dict(case, step=step)
+        LAST_RAW.clear()
         if op[0] == "clear":
             ctx.shape["op:clear_cache"] += 1
             ok, _ = ctx.call(API_Q, c2, obj.clear_cache)
@@ -311,6 +318,24 @@ def run_case(case, ctx):
                     good = agree(have, want)
                     ctx.check(API_Q, good, f"{kind}/{op[0]}/answer-depends-on-history", c2,
                               {"step": step, "op": op, "used_object": have, "fresh_object": want})
+        # results handed out earlier are the caller's: a later operation must not change them
+        for st0, raw, val0 in kept:
+            try:
+                now = {t: float(raw[t]) for t in V}
+            except Exception as e:  # noqa: BLE001
+                now = repr(e)
+            if now == val0:
+                ctx.held(API_Q)
+            else:
+                ctx.violated(API_Q, f"{kind}/returned-result-changed-by-later-operation", c2,
+                             {"returned_at_step": st0, "changed_at_step": step, "op": op, "was": val0, "now": now})
+        kept = [(a, b, c) for (a, b, c) in kept if a >= step - 3]
+        if op[0] == "next" and LAST_RAW.get("obj") is not None and len(op[1]) <= 8:
+            raw = LAST_RAW["obj"]
+            try:
+                kept.append((step, raw, {t: float(raw[t]) for t in V}))
+            except Exception:  # noqa: BLE001
+                pass
         after = [snap(c) for _, c in watched]
         for (path, _), b, a in zip(watched, before, after):
             if b == a:
